@@ -91,7 +91,7 @@ func c20InitCode(slots [][2]int, variant int, empty bool) []byte {
 		return append(b, 0x60, 0x00, 0x60, 0x00, 0xf3)
 	}
 	rt := append(append([]byte{}, c20Runtime...), 0x00, byte(variant))
-	off := len(b) + 12
+	off := len(b) + 13
 	b = append(b, 0x60, byte(len(rt)), 0x61, byte(off>>8), byte(off), 0x60, 0x00, 0x39, 0x60, byte(len(rt)), 0x60, 0x00, 0xf3)
 	return append(b, rt...)
 }
